@@ -174,6 +174,33 @@ func encodeTop(vc *VC, fn *ssa.Function, d *Decl) []inputVar {
 		}
 		fr.lets = append(fr.lets, letBinding{name, env0.tr(e)})
 	}
+	// names introduced by bind clauses exist from the start (arbitrary values, called(x) false) until their call is encoded
+	for _, c := range d.Get("bind") {
+		i := strings.Index(c.Text, "=")
+		if i < 0 {
+			continue
+		}
+		target := strings.TrimSpace(c.Text[i+1:])
+		if j := strings.LastIndex(target, "#"); j >= 0 {
+			target = strings.TrimSpace(target[:j])
+		}
+		callee := vc.P.ResolveFunc(fn.Pkg.Pkg.Name(), target)
+		if callee == nil {
+			panic(specErr("bind: unknown function " + target))
+		}
+		if fr.bindVals == nil {
+			fr.bindVals = map[string]sval{}
+		}
+		for k, n := range strings.Split(c.Text[:i], ",") {
+			n = strings.TrimSpace(n)
+			if n == "_" || n == "" || k >= callee.Signature.Results().Len() {
+				continue
+			}
+			rt := callee.Signature.Results().At(k).Type()
+			fr.bindVals[n] = sval{t: vc.freshConst("unbound_"+n, vc.sortOf(rt)), typ: rt}
+			fr.bindVals[n+"$called"] = sval{t: "false", typ: boolT}
+		}
+	}
 	vc.oblige("cover-pre", "", "true", "false", "the preconditions, type invariants and axioms are satisfiable", []string{"vacuity"}, "").Expect = "sat"
 	fr.encodeBody(st, "true")
 	if len(fr.rets) == 0 {
@@ -282,7 +309,7 @@ func (fr *frame) callSeq(key string) int {
 	return fr.callSeqN[key]
 }
 
-func (fr *frame) recordBind(key string, seq int, res []string, sig *types.Signature) {
+func (fr *frame) recordBind(key string, seq int, res []string, sig *types.Signature, args []string, argT []types.Type, g string) {
 	if fr.contract == nil {
 		return
 	}
@@ -309,10 +336,17 @@ func (fr *frame) recordBind(key string, seq int, res []string, sig *types.Signat
 		}
 		for k, n := range names {
 			n = strings.TrimSpace(n)
-			if n == "_" || n == "" || k >= len(res) {
+			if n == "_" || n == "" {
 				continue
 			}
-			fr.bindVals[n] = sval{t: res[k], typ: sig.Results().At(k).Type()}
+			if k < len(res) {
+				fr.bindVals[n] = sval{t: res[k], typ: sig.Results().At(k).Type()}
+			}
+			// called(n): the call was executed on this path; argof(n, i): its i-th actual argument
+			fr.bindVals[n+"$called"] = sval{t: g, typ: boolT}
+			for i := range args {
+				fr.bindVals[fmt.Sprintf("%s$a%d", n, i)] = sval{t: args[i], typ: argT[i]}
+			}
 		}
 	}
 }
@@ -371,7 +405,7 @@ func (fr *frame) frameFormulas(items []modItem, st0, now *State, onlyChanged boo
 				panic(specErr("modifies elems of a non-slice"))
 			}
 			for _, c := range vc.classesOfType(sl.Elem()) {
-				perClass[c] = append(perClass[c], "(= (ea_arr a) (s_arr "+sv.t+"))")
+				perClass[c] = append(perClass[c], "(and (= (akind a) 1) (= (ea_arr a) (s_arr "+sv.t+")))")
 			}
 		}
 	}
